@@ -68,6 +68,7 @@ def judge(ctx, fn, case, quoted, strip_fragment, proto="https", shrink=True):
     u = G.render(case)
     ctx.ev()
     status, bad, info = evaluate(fn, u, quoted, strip_fragment, proto)
+    ctx.out((u, quoted, strip_fragment, proto, status, (info or {}).get("out")))
     if status == "unparseable":
         ctx.count("unparseable-not-judged")
         return status
@@ -193,6 +194,7 @@ def run(ctx):
                     if n == 2 and n_here % 400 == 3:
                         ctx.sample("frame-%s-%d" % (comp, n_here // 400 % 2), G.render(G.frame(comp, toks)))
             ctx.exhaustive_space("token sequences of length <= %d in component %s (%d-token alphabet) x 4 option vectors" % (L, comp, len(alpha)), n_here)
+        ctx.freeze_outputs()
         n = 0
         lim = 2500 if ctx.tier == "quick" else 10 ** 7
         while ctx.time_left() and n < lim:
